@@ -132,7 +132,9 @@ func matchExpr(lbls map[string]string, e corev1.NodeSelectorRequirement) bool {
 // the pod spec's tolerations plus the tolerations every DaemonSet pod carries.
 func eligibleSpec(node *corev1.Node, spec *corev1.PodSpec) bool {
 	for k, v := range spec.NodeSelector {
-		if node.Labels[k] != v {
+		// the node must carry the label (a selector entry with an empty value is not satisfied by a
+		// node without the key)
+		if have, ok := node.Labels[k]; !ok || have != v {
 			return false
 		}
 	}
